@@ -999,28 +999,45 @@ func (r *Runtime) stringproto_toUpperCase(call FunctionCall) Value {
 	return s.toUpper()
 }
 
+// trimString strips white space and line terminators (all of them are single UTF-16 code units) from the ends
+// of s. It works on code units so that unpaired surrogates are preserved.
+func trimString(s String, left, right bool) String {
+	isSpace := func(c uint16) bool {
+		return strings.ContainsRune(parser.WhitespaceChars, rune(c))
+	}
+	start, end := 0, s.Length()
+	if left {
+		for start < end && isSpace(s.CharAt(start)) {
+			start++
+		}
+	}
+	if right {
+		for end > start && isSpace(s.CharAt(end-1)) {
+			end--
+		}
+	}
+	return s.Substring(start, end)
+}
+
 func (r *Runtime) stringproto_trim(call FunctionCall) Value {
 	r.checkObjectCoercible(call.This)
 	s := call.This.toString()
 
-	// TODO handle invalid UTF-16
-	return newStringValue(strings.Trim(s.String(), parser.WhitespaceChars))
+	return trimString(s, true, true)
 }
 
 func (r *Runtime) stringproto_trimEnd(call FunctionCall) Value {
 	r.checkObjectCoercible(call.This)
 	s := call.This.toString()
 
-	// TODO handle invalid UTF-16
-	return newStringValue(strings.TrimRight(s.String(), parser.WhitespaceChars))
+	return trimString(s, false, true)
 }
 
 func (r *Runtime) stringproto_trimStart(call FunctionCall) Value {
 	r.checkObjectCoercible(call.This)
 	s := call.This.toString()
 
-	// TODO handle invalid UTF-16
-	return newStringValue(strings.TrimLeft(s.String(), parser.WhitespaceChars))
+	return trimString(s, true, false)
 }
 
 func (r *Runtime) stringproto_substr(call FunctionCall) Value {
